@@ -231,3 +231,5 @@ m("C16-D27-none-valued-attributes-stripped-on-the-live-graph", "C16", "import_ex
   "        if graph is tracks.graph:\n            graph = graph.copy()\n", "")
 m("C14-revert-D29-frame-index-scaled-by-time-scale", "C14", "import_export/_validation.py",
   "    scale = [1.0, *scale[1:]]\n", "")
+m("C11-revert-D28-half-added-node-stays", "C11", "actions/add_delete_node.py",
+  "            self.tracks.graph.remove_node(self.node)\n            if self.pixels is not None:\n                self.tracks.set_pixels(self.pixels, 0)\n            raise", "            raise")
